@@ -112,7 +112,8 @@ fn run_matcher_prop(id: &str, tier: &str) -> ! {
     }
     if matches!(id, "C01" | "C02" | "C03") {
         // shapes on both sides of every matrix guard and needles of up to 6000 characters
-        let cases = big::big_cases(rep.is_thorough());
+        let thorough_big = rep.is_thorough();
+        let cases = big::big_cases(thorough_big);
         total += cases.len() as u64;
         let acc = common::par_shards(cases.len(), common::threads(), |i, acc| {
             let bc = &cases[i];
@@ -139,7 +140,7 @@ fn run_matcher_prop(id: &str, tier: &str) -> ! {
             // large cases: replace the full text in violation examples by a compact description
             for (_, v) in local.violations.iter_mut() {
                 for e in v.examples.iter_mut() {
-                    *e = json!({"large_family": bc.family, "cfg": bc.cfg.tag(), "haystack_len": bc.hay.len(), "needle_len": bc.needle.len(),
+                    *e = json!({"large_family": bc.family, "large_index": i, "large_thorough": thorough_big, "cfg": bc.cfg.tag(), "haystack_len": bc.hay.len(), "needle_len": bc.needle.len(),
                                 "haystack_head": common::show(&bc.hay[..bc.hay.len().min(8)]), "needle_head": common::show(&bc.needle[..bc.needle.len().min(8)]),
                                 "detail": {"entry": e.get("entry"), "algo": e.get("algo"), "rep": e.get("rep"), "returned": e.get("returned"), "scheme": e.get("scheme"), "match": e.get("match"), "indices_result": e.get("indices")}});
                 }
@@ -148,7 +149,7 @@ fn run_matcher_prop(id: &str, tier: &str) -> ! {
             acc.merge(local);
             if r.is_err() {
                 acc.violation(&format!("{id}/panic-large"), "the matcher panicked on a large input", || {
-                    json!({"large_family": bc.family, "cfg": bc.cfg.tag(), "haystack_len": bc.hay.len(), "needle_len": bc.needle.len()})
+                    json!({"large_family": bc.family, "large_index": i, "large_thorough": thorough_big, "cfg": bc.cfg.tag(), "haystack_len": bc.hay.len(), "needle_len": bc.needle.len()})
                 });
             }
         });
@@ -191,8 +192,19 @@ fn run_matcher_prop(id: &str, tier: &str) -> ! {
 fn replay_matcher_case(id: &str, c: &common::Value, acc: &mut common::Acc) {
     use algos::Text;
     let cfg = Cfg::from_tag(c["cfg"].as_str().unwrap_or("INpx"));
-    let hay = Text::new(&common::parse_cps(&c["haystack"]));
-    let needle = Text::new(&common::parse_cps(&c["needle"]));
+    let (hay_chars, needle_chars) = if let Some(fam) = c["large_family"].as_str() {
+        // large inputs are stored by their position in the generated family list
+        let cases = big::big_cases(c["large_thorough"].as_bool().unwrap_or(false));
+        let i = c["large_index"].as_u64().unwrap_or(u64::MAX) as usize;
+        match cases.get(i) {
+            Some(bc) if bc.family == fam && bc.hay.len() as u64 == c["haystack_len"].as_u64().unwrap_or(0) && bc.needle.len() as u64 == c["needle_len"].as_u64().unwrap_or(0) && bc.cfg.tag() == cfg.tag() => (bc.hay.clone(), bc.needle.clone()),
+            _ => machinery_failure("the large-input family list no longer contains this case at the recorded position"),
+        }
+    } else {
+        (common::parse_cps(&c["haystack"]), common::parse_cps(&c["needle"]))
+    };
+    let hay = Text::new(&hay_chars);
+    let needle = Text::new(&needle_chars);
     let view = refm::HayView::new(&hay.chars, cfg);
     let mut ctx = dom::Ctx {
         matcher: nucleo_matcher::Matcher::new(cfg.to_config()),
